@@ -59,11 +59,27 @@ def gen_cases(ctx, n):
     rng = ctx.rng
     cases = []
     for k in range(n):
-        kind = rng.choice(['pr', 'pc', 'pc3', 'rr', 'rc', 'cr', 'cc', 'mk'])
+        kind = rng.choice(['pr', 'pc', 'pc3', 'rr', 'rc', 'cr', 'cc', 'mk', 'pd', 'pdiag'])
         if kind == 'pr':
             r = rnd_rect(rng)
             x, y = (rng.choice([r[2], r[4], rng.choice(GRID)]), rng.choice([r[3], r[5], rng.choice(GRID)]))
             cases.append(('point', r, x, y))
+        elif kind == 'pd':
+            # one-decimal millimetre coordinates (not binary fractions), the point exactly on an edge / corner or well inside / outside
+            x1, y1 = F(rng.randint(0, 2000), 10), F(rng.randint(0, 2000), 10)
+            x2, y2 = x1 + F(rng.randint(1, 900), 10), y1 + F(rng.randint(1, 900), 10)
+            x = rng.choice([x1, x2, x1, x2, (x1 + x2) / 2, x1 - F(1, 10), x2 + F(1, 10)])
+            y = rng.choice([y1, y2, y1, y2, (y1 + y2) / 2, y1 - F(1, 10), y2 + F(1, 10)])
+            cases.append(('point', ('rect', 'r', x1, y1, x2, y2), x, y))
+        elif kind == 'pdiag':
+            # just inside / outside a disc in every direction, the diagonals included (0.2 % of the radius: far above binary64 resolution)
+            import math
+            cx, cy, rad = rng.choice(GRID), rng.choice(GRID), F(rng.randint(1, 80), 4)
+            ang = rng.choice([45, 135, 225, 315, 45, 135, 30, 60, 0, 90, 44.9, 45.1, 200, 300])
+            f = rng.choice([0.998, 1.002, 1.002, 1.004, 0.9999, 1.0001])
+            x = F('%.6f' % (float(cx) + float(rad) * f * math.cos(math.radians(ang))))
+            y = F('%.6f' % (float(cy) + float(rad) * f * math.sin(math.radians(ang))))
+            cases.append(('point', ('circ', 'c', cx, cy, rad), x, y))
         elif kind == 'pc':
             c = rnd_circ(rng)
             cases.append(('point', c, rng.choice(GRID), rng.choice(GRID)))
